@@ -92,26 +92,40 @@ def inline_selectors(repo, fi: FunctionInfo) -> FunctionInfo:
         return _CACHE[key]
     sites = []
     for st in ast.walk(fi.node):
-        if isinstance(st, ast.Assign) and isinstance(st.value, ast.Call) and isinstance(st.value.func, ast.Name) and not st.value.keywords:
-            tgt = repo.resolve_name(fi, fi.module, st.value.func.id)
-            if isinstance(tgt, FunctionInfo) and tgt.cls is None and tgt.parent is None and len(st.value.args) == len(tgt.params) and all(isinstance(a, (ast.Name, ast.Constant)) for a in st.value.args):
+        if isinstance(st, ast.Assign) and isinstance(st.value, ast.Call) and not st.value.keywords and all(isinstance(a, (ast.Name, ast.Constant)) for a in st.value.args):
+            f = st.value.func
+            tgt, params = None, None
+            if isinstance(f, ast.Name):
+                tgt = repo.resolve_name(fi, fi.module, f.id)
+                if isinstance(tgt, FunctionInfo) and tgt.cls is None and tgt.parent is None:
+                    params = tgt.params
+            elif isinstance(f, ast.Attribute) and isinstance(f.value, ast.Name) and fi.cls is not None and fi.params and f.value.id in (fi.params[0], fi.cls.name):
+                # a private selector method of the class: self._m(...) (static or not)
+                try:
+                    tgt = repo.find_method(fi.cls, f.attr)
+                except Exception:  # noqa: BLE001
+                    tgt = None
+                if isinstance(tgt, FunctionInfo):
+                    static = any(d in ("staticmethod",) for d in tgt.decorators())
+                    params = tgt.params if static else tgt.params[1:]
+            if isinstance(tgt, FunctionInfo) and params is not None and len(st.value.args) == len(params):
                 body = _selector_body(tgt)
                 if body is not None:
-                    sites.append((st, tgt, body))
+                    sites.append((st, tgt, body, list(params)))
     if not sites:
         _CACHE[key] = fi
         return fi
     node = copy.deepcopy(fi.node)
     # locate the copied statements by position
-    index = {(s.lineno, s.col_offset): (s, tgt, body) for s, tgt, body in sites}
+    index = {(s.lineno, s.col_offset): (s, tgt, body, params) for s, tgt, body, params in sites}
 
     def rewrite(stmts):
         new = []
         for s in stmts:
             hit = index.get((getattr(s, "lineno", None), getattr(s, "col_offset", None))) if isinstance(s, ast.Assign) else None
             if hit is not None:
-                _, tgt, body = hit
-                mapping = dict(zip(tgt.params, s.value.args))
+                _, tgt, body, params = hit
+                mapping = dict(zip(params, s.value.args))
                 body = [_Subst(mapping).visit(copy.deepcopy(b)) for b in body]
                 repl = _convert(body, s.targets, s)
                 for r in repl:
